@@ -465,13 +465,25 @@ def _repr_evaluates(o):
         return False
 
 
-def _repr_culprit(o, depth=0, raises=False):
-    """The innermost stored object whose own repr does not evaluate (raises=True) / does not evaluate back to it."""
-    ok = _repr_evaluates if raises else _repr_roundtrips
+def _repr_eq_roundtrips(o):
+    """eval(repr(o)) == o by the value's own equality (stored fields that == ignores are not looked at)"""
+    if type(o).__repr__ is object.__repr__:
+        return True
+    try:
+        z = eval(repr(o), dict(_lenient_ns()), {})
+        return SD.peq(z, o) and SD.peq(o, z)
+    except Exception:  # noqa
+        return False
+
+
+def _repr_culprit(o, depth=0, raises=False, by_eq=False):
+    """The innermost stored object whose own repr does not evaluate (raises=True) / does not evaluate back to it
+    (by_eq=True: to an *unequal* value - the culprit of a failed == must itself fail ==, not merely lose an ignored field)."""
+    ok = _repr_evaluates if raises else (_repr_eq_roundtrips if by_eq else _repr_roundtrips)
     if depth < 8:
         for c in _children(o)[:60]:
             if not ok(c):
-                return _repr_culprit(c, depth + 1, raises)
+                return _repr_culprit(c, depth + 1, raises, by_eq)
     return o
 
 
@@ -824,7 +836,7 @@ def check_value(ctx, v, origin, light=False, repr_checks=True):
         except _EqRaised:
             eqz = not zdiffs  # the raising == is reported once, under json-roundtrip-eq
         if not eqz:
-            cul = _repr_culprit(x)
+            cul = _repr_culprit(x, by_eq=True)
             known = _classify(zdiffs, [], None, eqz, "repr") if zdiffs else None
             key = known if known in KNOWN_FIELDS.values() else "C11:repr-eval-not-equal:" + _blame_name(cul)
             ctx.check(False, "repr-eval-eq", key,
